@@ -104,7 +104,7 @@ Print Assumptions C08_failed_registration_frees_section.
 (* a failed registration is final: never in the section again, never active, never handed a request *)
 Theorem C08_failed_never_served : forall s p, reachable s -> alookup p (plugs s) = Some PFailed ->
   ~ in_exclusive s p /\ ~ In p (active s) /\ (forall c, ~ In (p, c) (recv s)) /\
-  (forall a, a <> APArrive p -> In a [APAcquire p; APSnapshot p; APFail p; APActivate p; APRelease p; APClose p] -> step s a = None).
+  (forall a, a <> APArrive p -> In a [APAcquire p; APSnapshot p; APFail p; APActivate p; APRelease p; APClose p; APAbandon p] -> step s a = None).
 Proof. exact failed_never_served. Qed.
 Print Assumptions C08_failed_never_served.
 
@@ -170,11 +170,11 @@ Proof. split; vm_compute; reflexivity. Qed.
 
 (* ---- a pending registration does not age.  The model has no clock and no deadline: the time a registration
    waits for the exclusive section is the number of steps the others take meanwhile.  For EVERY list of steps
-   (of any length, of any kind) that does not contain the waiting plugin's own acquire: it is still waiting, and
+   (of any length, of any kind) that does not contain the waiting plugin's own acquire (or its being given up): it is still waiting, and
    once no block is held and nobody is in the section its registration runs to completion — it is active, and its
    snapshot is the store of that moment ---- *)
 Theorem C08_pending_registration_does_not_age : forall s l s' p, reachable s ->
-  alookup p (plugs s) = Some PWaitW -> steps s l = Some s' -> ~ In (APAcquire p) l ->
+  alookup p (plugs s) = Some PWaitW -> steps s l = Some s' -> ~ In (APAcquire p) l -> ~ In (APAbandon p) l ->
   alookup p (plugs s') = Some PWaitW /\
   (readers s' = 0 -> writer s' = false ->
      exists s'', steps s' [APAcquire p; APSnapshot p; APActivate p; APRelease p] = Some s'' /\
@@ -193,6 +193,44 @@ Proof.
   exists s. assert (R : reachable s) by (eexists; exact E). vm_compute in E. inversion E; subst s.
   eexists. split; [exact R|]. split; [reflexivity|]. split; [vm_compute; reflexivity|]. vm_compute. auto.
 Qed.
+
+(* ---- an abandoned waiter: a plugin goes away while its registration waits behind sync blocks.  Giving the
+   registration up changes nothing but the waiter's own program counter — readers, writer, mutex, everybody
+   else are as if it had never asked —, blocks are granted as before, and once the last block is released every
+   other waiting registration runs to completion.  The code's own way (keep waiting, take the section, fail at
+   once, give it up) ends in exactly the same state ---- *)
+Theorem C08_abandoned_waiter_leaves_no_trace : forall s p s', reachable s -> step s (APAbandon p) = Some s' ->
+  reachable s' /\ alookup p (plugs s) = Some PWaitW /\ alookup p (plugs s') = Some PFailed /\
+  readers s' = readers s /\ writer s' = writer s /\ mutex s' = mutex s /\ gors s' = gors s /\
+  store s' = store s /\ active s' = active s /\ recv s' = recv s /\
+  (forall q, q <> p -> alookup q (plugs s') = alookup q (plugs s)) /\
+  (forall g s1, step s (AGAcquire g) = Some s1 -> exists s1', step s' (AGAcquire g) = Some s1') /\
+  (readers s' = 0 -> writer s' = false -> forall q, alookup q (plugs s') = Some PWaitW ->
+     exists s'', steps s' [APAcquire q; APSnapshot q; APActivate q; APRelease q] = Some s'' /\ In q (active s'')).
+Proof. exact abandoned_waiter_leaves_no_trace. Qed.
+Print Assumptions C08_abandoned_waiter_leaves_no_trace.
+
+Theorem C08_abandon_equals_acquire_then_fail : forall s p, reachable s -> alookup p (plugs s) = Some PWaitW ->
+  readers s = 0 -> writer s = false ->
+  exists s1 s2, steps s [APAcquire p; APFail p] = Some s1 /\ step s (APAbandon p) = Some s2 /\ s1 = s2.
+Proof. exact abandon_equals_acquire_then_fail. Qed.
+Print Assumptions C08_abandon_equals_acquire_then_fail.
+
+(* non-vacuity: A waits behind a block and is given up, B waits too; the log of the real runtime (A's turn comes after
+   the release and fails at once, anonymous because its handler never ran) is accepted; a runtime in which nothing
+   can be synchronised after the release leaves B pending: not accepted as a finished run *)
+Example C08_example_abandoned : exists s s', reachable s /\ readers s = 1 /\ step s (APAbandon "A") = Some s' /\
+  alookup "B" (plugs s') = Some PWaitW /\ readers s' = 1.
+Proof.
+  destruct (steps init [AGAcquire "g"; APArrive "A"; APArrive "B"]) as [s|] eqn:E; [|vm_compute in E; discriminate].
+  exists s. assert (R : reachable s) by (eexists; exact E). vm_compute in E. inversion E; subst s.
+  eexists. split; [exact R|]. vm_compute. auto.
+Qed.
+Example C08_accepts_abandoned_then_good :
+  accepts [ LBlockAcq "g"; LCreateRet "g" "c1"; LStore "g" "c1"; LBlockRel "g";
+            LSyncEnter "?0" ["c1"]; LSyncRet "?0" false;
+            LSyncEnter "B" ["c1"]; LSyncRecv "B" ["c1"]; LSyncRet "B" true ] = true.
+Proof. vm_compute. reflexivity. Qed.
 
 (* ---- closed instances and re-registration under the same name.  Plugin ids are INSTANCES; name_of p is the
    name the code knows the instance by; [listed s] = r.plugins = the live instances and the closed ones that
